@@ -227,9 +227,10 @@ where
                 .collect();
             let cached = self.receiver.cached_replicas();
             let at = crate::verif::coord_str(metadata.coord);
+            let timeouts = metadata.batch_mode.max_delay().is_some();
             crate::verif::emit(|| {
                 serde_json::json!({"ev": "start_setup", "at": at, "prev": prev, "prev_blocks": blocks,
-                    "cached_replicas": cached})
+                    "cached_replicas": cached, "timeouts": timeouts})
             });
         }
         self.num_previous_replicas = prev_replicas.len();
